@@ -26,7 +26,7 @@ from typing import Any, Callable, Dict, List, Optional, Tuple
 
 from .index import AnalysisError, Index, short
 from .values import (C, FALSE, INF, NONE, TOP, TRUE, App, Bound, Cls, Ext, Fact, Fn, HDict, HList,
-                     HObj, Ref, Sym, Tup, Value, concat)
+                     HObj, Lam, Ref, Sym, Tup, Value, concat)
 
 
 # ------------------------------------------------------------------ signals
@@ -1141,7 +1141,27 @@ class Interp:
         return out
 
     def ex_Lambda(self, run, node, env):
-        raise Unsupported("lambda")
+        run.seq += 1
+        return Lam(node, env, run.seq)
+
+    def call_lambda(self, run, lam: Lam, args, kwargs, node):
+        a = lam.node.args
+        if a.vararg or a.kwarg or a.kwonlyargs or kwargs:
+            raise Unsupported(f"lambda with star/keyword parameters at {self.locof(lam.node)}")
+        params = [p.arg for p in a.posonlyargs + a.args]
+        env = Env(lam.env.module, lam.env, {}, func=lam.env.func)
+        nd = len(a.defaults)
+        for i, p in enumerate(params):
+            if i < len(args):
+                env.vars[p] = args[i]
+            else:
+                di = i - (len(params) - nd)
+                if di < 0:
+                    self.raise_builtin(run, "TypeError", node, C(f"lambda missing argument {p}"))
+                env.vars[p] = self.eval(run, a.defaults[di], lam.env)
+        if len(args) > len(params):
+            self.raise_builtin(run, "TypeError", node, C("lambda: too many arguments"))
+        return self.eval(run, lam.node.body, env)
 
     # ================================================================ attribute / subscript
     def describe(self, run, v: Value) -> str:
